@@ -98,6 +98,7 @@ class Index(object):
         self.parent = {}
         self.funcs = []
         self.files = set()
+        self.file_of_id = {}
         for d in docs:
             self._walk(d, None)
 
@@ -112,9 +113,20 @@ class Index(object):
             if old is None or len(node.get('inner', [])) > len(old.get('inner', [])):
                 self.by_id[nid] = node
                 self.parent[nid] = parent
-        f = node.get('loc', {}).get('file') or node.get('loc', {}).get('includedFrom', {}).get('file')
-        if f:
-            self.files.add(f)
+        # clang prints a file name only where it changes relative to the previously printed location: track it in
+        # print order (loc first, then range.begin / range.end) to attribute every declaration to its source file
+        for where in (node.get('loc', {}), node.get('range', {}).get('begin', {})):
+            for w in (where.get('spellingLoc', {}), where.get('expansionLoc', {}), where):
+                if w.get('file'):
+                    self._cur_file = w['file']
+                    self.files.add(w['file'])
+        if nid is not None and self.by_id.get(nid) is node:
+            self.file_of_id[nid] = getattr(self, '_cur_file', None)
+        end = node.get('range', {}).get('end', {})
+        for w in (end.get('spellingLoc', {}), end.get('expansionLoc', {}), end):
+            if w.get('file'):
+                self._cur_file = w['file']
+                self.files.add(w['file'])
         if node.get('kind') in FUNC_KINDS:
             self.funcs.append(node)
         for c in node.get('inner', []) or []:
